@@ -17,6 +17,7 @@ package analysis
 import (
 	"log"
 	"path"
+	"reflect"
 	"sort"
 	"strings"
 
@@ -108,6 +109,11 @@ func Flatten(opts FlattenOpts) error {
 	debugLog("FlattenOpts: %#v", opts)
 
 	opts.flattenContext = newContext()
+
+	// Local $ref's must resolve to an actual part of the document, before attempting to expand anything.
+	if err := checkLocalRefs(&opts); err != nil {
+		return err
+	}
 
 	// 1. Recursively expand responses, parameters, path items and items in simple schemas.
 	//
@@ -249,12 +255,26 @@ func checkLocalRefs(opts *FlattenOpts) error {
 			continue
 		}
 
-		if _, _, err := ref.GetPointer().Get(opts.Swagger()); err != nil {
+		target, _, err := ref.GetPointer().Get(opts.Swagger())
+		if err != nil {
 			return ErrAtKey(key, ErrResolveSchema(err))
+		}
+
+		if isAbsent(target) {
+			// JSON pointer to an optional part of the document which is not there (resolved as a nil pointer)
+			return ErrAtKey(key, ErrResolveSchema(ErrNoSchema))
 		}
 	}
 
 	return nil
+}
+
+// isAbsent tells whether a JSON pointer has been resolved as a nil pointer,
+// i.e. designates an optional part which is absent from the document.
+func isAbsent(target any) bool {
+	v := reflect.ValueOf(target)
+
+	return v.Kind() == reflect.Ptr && v.IsNil()
 }
 
 func nameInlinedSchemas(opts *FlattenOpts) error {
